@@ -6,7 +6,9 @@
 //	P:id:kind:sz   Produce(p)/TryProduce(t)/ProduceSync(s) called with a fresh record id
 //	B:id           OnProduceRecordBuffered        U:id:e   OnProduceRecordUnbuffered (e = error token)
 //	A:id:n:b:sz    admitted (verif event, under the producer mutex; n,b = the client's counters after; sz = record size)
-//	K:id / W:id    blocked at the limit / stopped blocking (verif events)
+//	K:id / W:id:bl blocked at the limit / stopped blocking, bl = blocked producers after (verif events)
+//	Ww:id:n:fl  Dw:id:bl:fl   waiter snapshot right after W / D, in the same critical section (n buffered records, bl blocked, fl flushers)
+//	Bc:site        the producer condition variable was broadcast (verif event)
 //	D:id:n:b       accounting released (verif event)
 //	R:id:e:off     promise called (off = offset or -1)
 //	X:id           the produce call returned to the caller
@@ -182,6 +184,7 @@ func runProd(t *testing.T, tk []string) string {
 		return resp, nil, true
 	})
 
+	var lastKind atomic.Value // "unblock" | "finish": which event the following "waiters" snapshot belongs to (same critical section)
 	kgo.VerifSetEventSink(func(kind string, r *kgo.Record, a, b int64) {
 		switch kind {
 		case "admit":
@@ -190,9 +193,19 @@ func runProd(t *testing.T, tk []string) string {
 		case "block":
 			log.Add("K:%s", rid(r))
 		case "unblock":
-			log.Add("W:%s", rid(r))
+			log.Add("W:%s:%d", rid(r), a)
+			lastKind.Store("unblock")
 		case "finish":
 			log.Add("D:%s:%d:%d", rid(r), a, b)
+			lastKind.Store("finish")
+		case "waiters":
+			if lastKind.Load() == "unblock" {
+				log.Add("Ww:%s:%d:%d", rid(r), a, b) // bufferedRecords, flushing
+			} else {
+				log.Add("Dw:%s:%d:%d", rid(r), a, b) // blocked, flushing
+			}
+		case "bcast":
+			log.Add("Bc:%d", a)
 		}
 	})
 	defer kgo.VerifSetEventSink(nil)
